@@ -538,10 +538,20 @@ def other_operator(rng, kind, shp):
     return a_op(ob.gen(rng, kind, batch=b, m=m))
 
 
+# the functions the property names (independent of the tables: a dropped registration must show up as a failing call)
+REQUIRED_FIRST = ["torch.add", "torch.sub", "torch.mul", "torch.div", "torch.matmul", "torch.diagonal", "torch.logdet", "torch.linalg.solve",
+                  "torch.linalg.cholesky", "torch.linalg.eigh", "torch.linalg.eigvalsh", "torch.linalg.svd", "torch.linalg.solve_triangular",
+                  "torch.inverse", "torch.abs", "torch.exp", "torch.log", "torch.sqrt", "torch.sum", "torch.prod", "torch.squeeze",
+                  "torch.unsqueeze", "torch.transpose", "torch.permute", "torch.clone", "torch.numel", "torch.isclose"]
+REQUIRED_SECOND = ["torch.add", "torch.sub", "torch.mul", "torch.matmul", "torch.Tensor.add", "torch.Tensor.sub", "torch.Tensor.mul",
+                   "torch.Tensor.matmul"]
+
+
 def value_cases(ctx, rng, lib, insts):
     """the structural grid of value cases (deterministic); the seed only picks data"""
     cases = []
-    first, second = lib.meta["first"], lib.meta["second"]
+    first = sorted(set(REQUIRED_FIRST) | set(lib.meta["first"]))
+    second = sorted(set(REQUIRED_SECOND) | set(lib.meta["second"]))
 
     cur = {"dtype": "float64"}
 
@@ -626,12 +636,6 @@ REF_CLASSES = ["DenseLinearOperator", "DiagLinearOperator", "ConstantDiagLinearO
                "ToeplitzLinearOperator", "TriangularLinearOperator", "RootLinearOperator", "UserMinimal",
                "KroneckerProductLinearOperator", "SumLinearOperator", "MatmulLinearOperator", "AddedDiagLinearOperator",
                "BlockDiagLinearOperator"]
-REF_BUILD = {"DenseLinearOperator": ("Dense", None), "DiagLinearOperator": ("Diag", None), "ConstantDiagLinearOperator": ("ConstantDiag", None),
-             "IdentityLinearOperator": ("Identity", None), "ToeplitzLinearOperator": ("Toeplitz", None),
-             "TriangularLinearOperator": ("Triangular", None), "RootLinearOperator": ("Root", None), "UserMinimal": ("UserMinimal", None),
-             "KroneckerProductLinearOperator": ("Kron", "Dense"), "SumLinearOperator": ("Sum", "Dense"),
-             "MatmulLinearOperator": ("Matmul", "Dense"), "AddedDiagLinearOperator": ("AddedDiag", "Dense"),
-             "BlockDiagLinearOperator": ("BlockDiag", "Dense")}
 
 
 def a_i(v):
@@ -642,46 +646,73 @@ def a_l(v):
     return {"k": "l", "v": [int(x) for x in v]}
 
 
-def psd_instances(ctx, rng, lib):
-    """positive definite reference instances (children fixed to Dense so that the set is stable across seeds)"""
+def ref_expr(rng, cname, batch, m, psd):
+    """a reference instance with a FIXED structure (only the numbers depend on the seed), so that the set of
+    structural cells -- and hence the set of findings -- is the same for every seed"""
+    batch = list(batch)
+    g = lambda nm, **kw: ob.gen(rng, nm, **kw)
+    if cname == "DenseLinearOperator":
+        return g("Dense", batch=batch, m=m, psd=psd)
+    if cname == "UserMinimal":
+        return g("UserMinimal", batch=batch, m=m, psd=psd)
+    if cname == "DiagLinearOperator":
+        return g("Diag", batch=batch, m=m, psd=psd)
+    if cname == "ConstantDiagLinearOperator":
+        return g("ConstantDiag", batch=batch, m=m, psd=psd)
+    if cname == "IdentityLinearOperator":
+        return g("Identity", batch=batch, m=m)
+    if cname == "ToeplitzLinearOperator":
+        return g("Toeplitz", batch=batch, m=m, psd=psd)
+    if cname == "TriangularLinearOperator":
+        return g("Triangular", batch=batch, m=m)
+    if cname == "RootLinearOperator":
+        return g("Root", batch=batch, m=m, psd=psd)
+    if cname == "KroneckerProductLinearOperator":
+        k = 2 if m <= 4 else 2
+        return {"cls": "Kron", "ops": [g("Dense", batch=batch, m=2, psd=psd), g("Dense", batch=batch, m=max(1, m // 2), psd=psd)]}
+    if cname == "SumLinearOperator":
+        return {"cls": "Sum", "ops": [g("Dense", batch=batch, m=m, psd=psd), g("Dense", batch=batch, m=m, psd=psd)]}
+    if cname == "MatmulLinearOperator":
+        if psd:
+            return None
+        return {"cls": "Matmul", "l": g("Dense", batch=batch, m=m, n=2), "r": g("Dense", batch=batch, m=2, n=m)}
+    if cname == "AddedDiagLinearOperator":
+        return {"cls": "AddedDiag", "base": g("Dense", batch=batch, m=m, psd=psd), "diag": g("Diag", batch=batch, m=m, psd=True)}
+    if cname == "BlockDiagLinearOperator":
+        return {"cls": "BlockDiag", "base": g("Dense", batch=batch + [2], m=m, psd=psd), "block_dim": -3}
+    return None
+
+
+def _refs(rng, lib, plans, psd):
     out = []
-    plans = [[], [2]] if ctx.quick else [[], [2], [2, 1], [1]]
     for cname in REF_CLASSES:
-        nm, child = REF_BUILD[cname]
-        if nm not in ob.PSD_CAPABLE:
-            continue
-        for batch in plans:
-            for attempt in range(4):
+        for batch, m in plans:
+            for attempt in range(3):
                 try:
-                    e = ob.gen(rng, nm, batch=batch, m=3, psd=True, child=child)
+                    e = ref_expr(rng, cname, batch, m, psd)
+                    if e is None:
+                        break
                     if type(ob.build(e)).__name__ == cname and healthy(e, torch.float64, lib.root):
                         out.append((cname, e))
                         break
                 except Exception:      # noqa
                     pass
     return out
+
+
+def psd_instances(ctx, rng, lib):
+    """positive definite reference instances"""
+    return _refs(rng, lib, [([], 3), ([2], 3)] if ctx.quick else [([], 3), ([2], 3), ([2, 1], 2), ([1], 4)], True)
 
 
 def ref_instances(ctx, rng, lib):
-    out = []
-    plans = [([], 3), ([2], 3), ([2, 1], 2)] if ctx.quick else [([], 3), ([2], 3), ([2, 1], 2), ([1], 3), ([1, 2], 2), ([], 1)]
-    for cname in REF_CLASSES:
-        nm, child = REF_BUILD[cname]
-        for batch, m in plans:
-            for attempt in range(4):
-                try:
-                    e = ob.gen(rng, nm, batch=batch, m=m, child=child)
-                    if type(ob.build(e)).__name__ == cname and healthy(e, torch.float64, lib.root):
-                        out.append((cname, e))
-                        break
-                except Exception:      # noqa
-                    pass
-    return out
+    plans = [([], 3), ([2], 3), ([2, 1], 2)] if ctx.quick else [([], 3), ([2], 3), ([2, 1], 2), ([1], 3), ([1, 2], 2), ([], 1), ([3], 4)]
+    return _refs(rng, lib, plans, False)
 
 
 def function_cases(ctx, rng, lib, insts):
     """one-operand functions.  Every case: torch.f(op, *args, **kw).  l2: compare with torch.f(dense, ...) as well."""
-    first = lib.meta["first"]
+    first = sorted(set(REQUIRED_FIRST) | set(lib.meta["first"]))
     cases = []
 
     def add(f, e, dtn, args=(), kw=None, fargs=None, l2=False, cmp="direct", pos=False):
@@ -742,6 +773,13 @@ def function_cases(ctx, rng, lib, insts):
         shp = list(dn.shape)
         rhs = a_t(rt(rng, shp[:-1] + [2]))
         vec = a_t(rt(rng, [shp[-1]]))
+        if cname == "TriangularLinearOperator":       # invertible (positive diagonal), not symmetric
+            up = bool(e.get("upper", False))
+            add("torch.linalg.solve_triangular", e, "float64", [rhs], {"upper": up}, l2=True)
+            add("torch.linalg.solve_triangular", e, "float64", [rhs], {"upper": up, "left": True, "unitriangular": False}, l2=True)
+            add("torch.inverse", e, "float64", l2=True)
+            add("torch.linalg.solve", e, "float64", [rhs], l2=True)
+            continue
         add("torch.linalg.cholesky", e, "float64", l2=True)
         add("torch.linalg.cholesky", e, "float64", [], {"upper": True}, l2=True)
         add("torch.linalg.eigvalsh", e, "float64", l2=True, cmp="eigvalsh")
@@ -752,9 +790,8 @@ def function_cases(ctx, rng, lib, insts):
         add("torch.linalg.solve", e, "float64", [rhs], l2=True)
         if len(shp) == 2:
             add("torch.linalg.solve", e, "float64", [vec], l2=True)
-        if cname in ("TriangularLinearOperator", "DiagLinearOperator"):
-            up = bool(e.get("upper", False))
-            add("torch.linalg.solve_triangular", e, "float64", [rhs], {"upper": up}, l2=True)
+        if cname == "DiagLinearOperator":
+            add("torch.linalg.solve_triangular", e, "float64", [rhs], {"upper": False}, l2=True)
         else:
             add("torch.linalg.solve_triangular", e, "float64", [rhs], {"upper": False}, l2=False)
         for f in ("torch.exp", "torch.log", "torch.sqrt", "torch.abs"):
@@ -1095,9 +1132,9 @@ def cell_of(k):
     if k["class"] == "InterpolatedLinearOperator" and k["sem"] == "matmul" and k["other"] == "operator" and k["route"] == "first" and f == "raises:ValueError":
         return "interpolated-matmul-operator"
     if k["class"] == "ZeroLinearOperator" and f == "raises:AttributeError" and (
-            (k["sem"] == "mul" and k["other"] == "scalar") or (k["sem"] == "sub" and k["route"] == "second")):
+            (k["sem"] == "mul" and k["other"] == "scalar") or (k["sem"] in ("add", "sub") and k["route"] == "second")):
         return "zero-mul-scalar"
-    if k["class"] == "ZeroLinearOperator" and k["sem"] == "add" and k["other"] == "scalar" and f == "value":
+    if k["class"] == "ZeroLinearOperator" and k["sem"] in ("add", "sub") and k["other"] == "scalar" and f == "value":
         return "zero-add-scalar"
     if k["sem"] in ("add", "sub") and k["other"] == "scalar" and f.startswith("raises:"):
         return "scalar-addsub-unsupported"
